@@ -15,7 +15,11 @@ from .values import *  # noqa: F403
 KIND_OF_ANN = {"int": "int", "bytes": "bytes", "bool": "bool", "str": "str", "Node": "ref"}
 
 
+_GLOBAL: dict = {}
+
+
 def spec_function(ex, name: str, st):
+    ex.rec_specs = _GLOBAL  # one definition per process (z3 forbids redefinition)
     if name in ex.rec_specs:
         return ex.rec_specs[name]
     fn = SPECS[name]
